@@ -13,47 +13,47 @@ PREFIXES = {"g_", "s_", "t_", "u_", "e_"}
 # sites whose consumer alone does not show that the token is an IDENTIFIER: reviewed
 # justification (where the token comes from)
 JUSTIFIED_IDENTIFIER_SITES = {
-    "norminette/rules/check_identifier_name.py|CheckIdentifierName.run|v0.value":
+    "norminette/rules/check_identifier_name.py|v0.value":
         "scope.vars_name holds IDENTIFIER tokens only (appended by IsVarDeclaration / IsUserDefinedType after a "
         "check_token(.., 'IDENTIFIER')); consumed character by character against ascii_lowercase + digits + '_'",
-    "norminette/rules/check_variable_indent.py|CheckVariableIndent.check_tabs|context.peek_token(v0).value":
+    "norminette/rules/check_variable_indent.py|context.peek_token(v0).value":
         "guarded by check_token(i, 'IDENTIFIER') is True on the line above; consumed character by character "
         "against ascii_lowercase",
-    "norminette/rules/check_preprocessor_define.py|CheckPreprocessorDefine.run|not context.peek_token(v0).value.isupper()":
+    "norminette/rules/check_preprocessor_define.py|not context.peek_token(v0).value.isupper()":
         "the token after '#define' is the macro name: IsPreprocessorStatement.check_define raises CParsingError "
         "unless it is an IDENTIFIER",
-    "norminette/rules/check_preprocessor_protection.py|CheckPreprocessorProtection.run|context.peek_token(v0).value":
+    "norminette/rules/check_preprocessor_protection.py|context.peek_token(v0).value":
         "the token after '#ifndef' (validated by IsPreprocessorStatement._just_identifier); compared with the guard "
         "derived from the file name: a name the tool treats specially (C14)",
-    "norminette/rules/is_func_declaration.py|IsFuncDeclaration.check_func_format|v0.fnames.append(context.peek_token(v1).value)":
+    "norminette/rules/is_func_declaration.py|v0.fnames.append(context.peek_token(v1).value)":
         "function name IDENTIFIER (identifier[1] index); stored, later read character-wise by CheckIdentifierName",
-    "norminette/rules/is_func_prototype.py|IsFuncPrototype.check_func_format|v0.fnames.append(context.peek_token(v1).value)":
+    "norminette/rules/is_func_prototype.py|v0.fnames.append(context.peek_token(v1).value)":
         "function name IDENTIFIER; stored only",
-    "norminette/context.py|Macro.from_token|v0.value or v0.type":
+    "norminette/context.py|v0.value or v0.type":
         "macro name of a #define; compared only with the guard symbol (has_macro_defined)",
-    "norminette/rules/is_preprocessor_statement.py|IsPreprocessorStatement.run|v0.value if v0.type == 'IDENTIFIER' else v0.type":
+    "norminette/rules/is_preprocessor_statement.py|v0.value if v0.type == 'IDENTIFIER' else v0.type":
         "directive name right after '#': directive position",
-    "norminette/rules/is_preprocessor_statement.py|IsPreprocessorStatement.corresponding_endif|v0.value if v0.type == 'IDENTIFIER' else v0.type":
+    "norminette/rules/is_preprocessor_statement.py|v0.value if v0.type == 'IDENTIFIER' else v0.type":
         "directive name right after '#': directive position",
 }
 
 # consumers of comment / literal text that the statement of C17 itself excludes or that only
 # observe a length
 COMMENT_LITERAL_SITES = {
-    "norminette/rules/check_comment_line_len.py|CheckCommentLineLen.run|v0.value.split('\\n')":
+    "norminette/rules/check_comment_line_len.py|v0.value.split('\\n')":
         "only len() of the parts is taken (proved: the C03 contract of CheckCommentLineLen.run mentions the value "
         "through split_part_len / len only)",
-    "norminette/rules/check_comment_line_len.py|CheckCommentLineLen.run|v0 + len(v1.value)": "length only",
-    "norminette/rules/check_header.py|CheckHeader.parse_header|context.peek_token(0).value + '\\n'":
+    "norminette/rules/check_comment_line_len.py|v0 + len(v1.value)": "length only",
+    "norminette/rules/check_header.py|context.peek_token(0).value + '\\n'":
         "the 42 header accumulator: excluded by the statement ('outside the 42 header'); only leading block comments "
         "reach it (C13 state machine: frozen after the first non-comment statement)",
-    "norminette/rules/check_preprocessor_include.py|CheckPreprocessorInclude.run|context.peek_token(v0).value.strip().strip('\"')":
+    "norminette/rules/check_preprocessor_include.py|context.peek_token(v0).value.strip().strip('\"')":
         "argument of #include: excluded by the statement",
 }
 
 DEBUG_SITES = {
-    "norminette/lexer/tokens.py|Token.__str__|f'<{self.type}={self.value}>' if self.value else f'<{self.type}>'",
-    "norminette/lexer/tokens.py|Token.__str__|{self.value}",
+    "norminette/lexer/tokens.py|f'<{self.type}={self.value}>' if self.value else f'<{self.type}>'",
+    "norminette/lexer/tokens.py|{self.value}",
 }
 
 
